@@ -104,12 +104,24 @@ def lookupSnap (r : Repo) (s : Nat) : Option Snap := (r.snaps.find? fun x => x.1
 
 /-! ### C11 / C14: the writer language -/
 
-/-- local guard of one additive event against the state it is applied to -/
+/-- local guard of one additive event against the state it is applied to (monotone in the
+    state: what holds in a smaller repository holds in a larger one) -/
 def addGuard (r : Repo) : Ev → Bool
-  | .savePack p _ => !(r.packs.any fun q => q.1 == p)      -- content addressed: never overwritten
+  | .savePack _ _ => true
   | .saveIndex _ es => es.all (entryOK r)                   -- names only packs saved earlier
-  | .saveSnap s sn => restorable r sn && !snapPresent r s   -- closure indexed by earlier index saves
+  | .saveSnap _ sn => restorable r sn                       -- closure indexed by earlier index saves
   | _ => false                                              -- a backup never removes anything
+
+/-- file names are content derived: a save never hits an existing name (checked on recorded
+    traces by the drivers; not needed by any theorem) -/
+def freshOK : Repo → List Ev → Bool
+  | _, [] => true
+  | r, e :: tr =>
+    (match e with
+     | .savePack p _ => !(r.packs.any fun q => q.1 == p)
+     | .saveIndex i _ => !(r.indexes.any fun q => q.1 == i)
+     | .saveSnap s _ => !(r.snaps.any fun q => q.1 == s)
+     | _ => true) && freshOK (apply r e) tr
 
 /-- every event is additive and passes its guard in the state reached so far -/
 def acceptAdds : Repo → List Ev → Bool
